@@ -188,6 +188,11 @@ def special_circuits():
     out.append(("not-or-and-with-dangling", circgen.build(
         ["a", "b", "c"], [("t", G.AND, ("a", "b")), ("u", G.OR, ("t", "c")), ("o", G.NOT, ("u",)), ("d1", G.XOR, ("a", "c")), ("d2", G.NAND, ("b", "c")),
                           ("d3", G.OR, ("t", "a"))], ["o"])))
+    out.append(("not-or-and-with-two-dangling-over-leaves", circgen.build(
+        ["a", "b", "c"], [("t", G.AND, ("a", "b")), ("u", G.OR, ("t", "c")), ("o", G.NOT, ("u",)), ("d1", G.XOR, ("a", "c")), ("d2", G.NAND, ("b", "c"))], ["o"])))
+    out.append(("nand-chain-with-dangling", circgen.build(
+        ["a", "b", "c", "d"], [("t", G.NAND, ("a", "b")), ("n", G.NOT, ("t",)), ("u", G.AND, ("n", "c")), ("o", G.NOT, ("u",)), ("d1", G.OR, ("a", "c")),
+                               ("d2", G.GT, ("b", "c")), ("d3", G.LT, ("a", "b"))], ["o"])))
     out.append(("xor-and-stored-backwards", circgen.build(
         ["a", "b", "c"], [("g", G.AND, ("a", "b")), ("h", G.XOR, ("g", "c"))], ["h"], ["h", "c", "g", "b", "a"])))
     out.append(("full-adder-aig", circgen.build(
@@ -206,6 +211,10 @@ def unit(p, item, tier, seed):
         fam.append((f"seeded[{s}:{i}]", redundant_circuit(rnd, rnd.randint(2, 4), rnd.randint(3, 9 if thorough else 7))))
     variants = ["canonical", "reversed", ("shuffled", s), ("truncated", 2)]
     for name, c0 in fam:
+        if not name.startswith("seeded"):
+            # special shapes: every basis with the default parameters and the canonical cut family
+            for basis in ("AIG", "XAIG", "FULL"):
+                run_case(p, name, c0, dict(basis=basis, enable_validation=True, max_subcircuit_size=9, solver_time_limit_sec=15, cut_size=5, cut_limit=25), "canonical")
         for k in range(2 if not thorough else 4):
             params = dict(
                 basis=rnd.choice(["AIG", "XAIG", "FULL", "xaig"]) if k else rnd.choice(["XAIG", "AIG"]),
